@@ -188,7 +188,7 @@ pub fn run(args: &Args) -> i32 {
     rec.count("dictionaries", dicts.len() as u64);
 
     // ---------------- reference compressor with dictionaries
-    let n = args.vol(2000, 100_000);
+    let n = args.vol(8000, 300_000);
     par_cases(&rec, 91, n, |i, r| {
         rec.eval();
         let t = r.pick(&dicts);
@@ -303,8 +303,9 @@ pub fn run(args: &Args) -> i32 {
         let raw = zspec::dict::write_dict(&d);
         let cases = boundary_cases(&d);
         rec.count("boundary_cases", cases.len() as u64);
-        for (name, bytes, expected) in cases {
+        for (ci, (name, bytes, expected)) in cases.into_iter().enumerate() {
             rec.eval();
+            let _g = case_guard(92, u64::from(k) << 32 | ci as u64);
             // the reference decoder agrees with the model about valid ones
             if let Some(exp) = &expected {
                 match refz::decompress_with_dict(&bytes, &raw) {
